@@ -483,17 +483,29 @@ def selftest(chk):
     log("[C17 selftest] repeated value at line %d: strict rejected at %d, map-free rejected at %d: %s" % (
         idx + 1, v2["matched"] + 1, v2f["matched"] + 1, t1))
     # (1b) corrupt one entry of get_values(): strict rejects it, map-free rejects a non-permutation
+    # (the map-free rule constrains get_values() at the END of a block of m draws only: pick such an event)
+    idxb, mcur, cnt = None, 0, 0
+    for i, r in enumerate(rows):
+        if r.get("op") == "new":
+            mcur, cnt = r["m"], 0
+        elif r.get("op") == "reset":
+            cnt = 0
+        elif r.get("op") == "next":
+            cnt = 1 if cnt >= mcur else cnt + 1
+            if cnt == mcur and mcur >= 3 and "v" in r and i > 20:
+                idxb = i
+                break
     bad = [dict(r) for r in rows]
-    vv = list(bad[idx]["v"])
+    vv = list(bad[idxb]["v"])
     vv[0] = vv[-1]
-    bad[idx]["v"] = vv
+    bad[idxb]["v"] = vv
     f2 = os.path.join(chk.wd, "corrupt_v.ndjson")
     write_ndjson(f2, bad)
     v2 = validate_trace("TraceFYShuffle", f2, chk.wd)
     set_free(f2, f2f)
     v2f = validate_trace("TraceFYShuffle", f2f, chk.wd)
-    t1b = (not v2["accepted"]) and v2["matched"] == idx and (not v2f["accepted"]) and v2f["matched"] == idx
-    log("[C17 selftest] corrupted get_values() at line %d rejected (strict and map-free): %s" % (idx + 1, t1b))
+    t1b = (not v2["accepted"]) and v2["matched"] == idxb and (not v2f["accepted"]) and v2f["matched"] == idxb
+    log("[C17 selftest] corrupted get_values() at the end of a block (line %d) rejected (strict and map-free): %s" % (idxb + 1, t1b))
     # (2) remove one draw in the middle of a block (the next event logs v, so the rejection is certain)
     f3 = os.path.join(chk.wd, "removed.ndjson")
     write_ndjson(f3, rows[:idx - 1] + rows[idx:])
